@@ -272,7 +272,7 @@ def cli_plumbing(chk: Check, rule: str, table: list[tuple[str, str, str]], doc: 
 _CHAIN_PROJECT: list = [None]  # set by the rules that want helper projection
 
 
-def _chains(fn: FuncInfo, expr: ast.AST, roots: set[str], depth: int = 0, seen: frozenset[str] = frozenset()) -> set[str]:
+def _chains(fn: FuncInfo, expr: ast.AST, roots: set[str], depth: int = 0, seen: frozenset[str] = frozenset(), unpack: bool = False) -> set[str]:
     """Dotted chains rooted at a parameter that `expr` depends on, following local assignments (def-use closure)."""
     out: set[str] = set()
     consumed: set[int] = set()
@@ -289,7 +289,7 @@ def _chains(fn: FuncInfo, expr: ast.AST, roots: set[str], depth: int = 0, seen: 
                 cps = params_of(callee.node)
                 body = [s_ for s_ in callee.node.body if not (isinstance(s_, ast.Expr) and isinstance(s_.value, ast.Constant))]
                 if len(body) == 1 and isinstance(body[0], ast.Return) and body[0].value is not None and len(cps) >= len(n.args):
-                    inner = _chains(callee, body[0].value, set(cps), depth + 1, seen)
+                    inner = _chains(callee, body[0].value, set(cps), depth + 1, seen, unpack)
                     amap = {cp: a.id for cp, a in zip(cps, n.args)}  # type: ignore[attr-defined]
                     projected = set()
                     for ch in inner:
@@ -300,10 +300,12 @@ def _chains(fn: FuncInfo, expr: ast.AST, roots: set[str], depth: int = 0, seen: 
                             projected.add(amap[h])
                     # resolve the argument names themselves (they may be locals aliasing parameters)
                     for pc in projected:
-                        out |= _chains(fn, ast.parse(pc, mode="eval").body, roots, depth + 1, seen)
+                        out |= _chains(fn, ast.parse(pc, mode="eval").body, roots, depth + 1, seen, unpack)
                     for sub in ast.walk(n):
                         consumed.add(id(sub))
                     continue
+        if isinstance(n, ast.Call) and isinstance(n.func, ast.Name) and n.func.id == "super" and "self" in roots:
+            out.add("self")  # `super().m(...)` reads the instance
         d = dotted(n) if isinstance(n, (ast.Attribute, ast.Name)) else None
         if d is None:
             continue
@@ -317,7 +319,14 @@ def _chains(fn: FuncInfo, expr: ast.AST, roots: set[str], depth: int = 0, seen: 
             continue
         scope: FuncInfo | None = fn
         while scope is not None:
-            vals = [v for _, v in assignments_to(scope.node, head) if v is not None]
+            vals = []
+            for st_, v in assignments_to(scope.node, head):
+                if v is not None:
+                    vals.append(v)
+                elif unpack and isinstance(st_, ast.Assign):  # tuple unpacking: `url, document = super().resolve(ref)` - the whole
+                    vals.append(st_.value)  # right-hand side (an over-approximation: used for what a VALUE depends on, never for keys)
+                elif unpack and isinstance(st_, (ast.For, ast.AsyncFor)):
+                    vals.append(st_.iter)
             if vals:
                 for v in vals:
                     if isinstance(v, ast.Call) and dotted(v.func) == "cast" and len(v.args) == 2:
@@ -325,9 +334,9 @@ def _chains(fn: FuncInfo, expr: ast.AST, roots: set[str], depth: int = 0, seen: 
                     dv = dotted(v)
                     if dv is not None and rest:
                         # alias of a chain:  x = a.b ; use x.c  ->  a.b.c
-                        out |= _chains(scope, ast.parse(f"{dv}.{rest}", mode="eval").body, roots, depth + 1, seen | {head})
+                        out |= _chains(scope, ast.parse(f"{dv}.{rest}", mode="eval").body, roots, depth + 1, seen | {head}, unpack)
                     else:
-                        out |= _chains(scope, v, roots, depth + 1, seen | {head})
+                        out |= _chains(scope, v, roots, depth + 1, seen | {head}, unpack)
                 break
             scope = scope.parent
     return out
@@ -360,8 +369,8 @@ def memo_key_rule(chk: Check, rule: str, fns: list[FuncInfo], suppress: dict[tup
             p = p.parent
         stores: list[tuple[ast.AST, list[ast.expr], ast.expr]] = []  # (site, key exprs, value expr)
         for s in walk_body(fn.node):
-            if isinstance(s, ast.Assign) and len(s.targets) == 1 and isinstance(s.targets[0], ast.Subscript):
-                tgt = s.targets[0]
+            if isinstance(s, ast.Assign) and any(isinstance(t_, ast.Subscript) for t_ in s.targets):
+                tgt = next(t_ for t_ in s.targets if isinstance(t_, ast.Subscript))  # `v = CACHE[k] = f(...)` as well
                 base_txt = unparse(tgt.value, 200)
                 if "cache" not in base_txt.lower() and not (isinstance(tgt.value, ast.Name) and tgt.value.id in _module_level_dicts(fn.module)):
                     continue
@@ -396,30 +405,38 @@ def memo_key_rule(chk: Check, rule: str, fns: list[FuncInfo], suppress: dict[tup
                 continue  # a setter (`def insert(self, key, value): self._cache[key] = value`): the memo logic is its caller's
             n += 1
             key_chains: set[str] = set()
+            import re as _re
             for k in keys:
-                key_chains |= _chains(fn, k, roots)
-            deps = _chains(fn, value, roots)
+                kc = _chains(fn, k, roots, unpack=True)
+                # the whole instance counts as a key part only if the key names it (`id(self)`), not because a key part
+                # was unpacked from a call on the instance (`url, document = super().resolve(ref)`; key `url`)
+                if "self" in kc and not _re.search(r"\bself\b(?!\.)", unparse(k, 400)):
+                    kc.discard("self")
+                key_chains |= kc
+            deps = _chains(fn, value, roots, unpack=True)
             missing = sorted(d for d in deps if not any(d == k or d.startswith(k + ".") or k.startswith(d + ".") and False for k in key_chains))
             # instance state (`self.x`): covered when the cache itself lives directly on the instance (`self._cache`);
             # a cache reached through another object (`self._parent._schema._operation_cache`) is shared between
             # instances, so the instance fields the value is built from must be in the key like any parameter
-            if any(k.startswith("self.") and k.count(".") == 1 for k in key_chains):
+            tgt0_ = next((t_ for t_ in site.targets if isinstance(t_, ast.Subscript)), None) if isinstance(site, ast.Assign) else None
+            module_level_ = isinstance(tgt0_, ast.Subscript) and isinstance(tgt0_.value, ast.Name) and tgt0_.value.id in _module_level_dicts(fn.module)
+            if not module_level_ and any(k.startswith("self.") and k.count(".") == 1 for k in key_chains):
                 missing = [d for d in missing if not (d == "self" or d.startswith("self."))]
-            missing = [d for d in missing if d != "self"]
+            if not module_level_:
+                missing = [d for d in missing if d != "self"]  # (a process-global cache does not know which instance filled it)
             # the object that owns the cache (`<owner>._operation_cache`) is part of the key by construction
             owners = {k.rsplit(".", 1)[0] for k in key_chains if "." in k and "cache" in k.rsplit(".", 1)[1].lower()}
             missing = [d for d in missing if not any(d == o or d.startswith(o + ".") for o in owners)]
             # a whole-object dependency (`generation_config` passed on) is covered by any key derived from that object
-            missing = [d for d in missing if not any(k.split(".")[0] == d for k in key_chains if "." not in d)]
+            missing = [d for d in missing if (module_level_ and d == "self") or not any(k.split(".")[0] == d for k in key_chains if "." not in d)]
             # identity keys: an API operation is identified by its label within one schema (the caches looked at live on
             # the schema), so a key `<op>.label` covers everything read from `<op>`
-            tgt0 = site.targets[0] if isinstance(site, ast.Assign) else None
-            module_level = isinstance(tgt0, ast.Subscript) and isinstance(tgt0.value, ast.Name) and tgt0.value.id in _module_level_dicts(fn.module)
+            module_level = module_level_
             # (a module-level cache outlives the schema: labels of different schemas collide, so no identity there)
             ident = set() if module_level else {k.rsplit(".", 1)[0] for k in key_chains if k.endswith(".label")}
             missing = [d for d in missing if not any(d == o or d.startswith(o + ".") for o in ident)]
             # key: the cache being written (module-level name / attribute), not the incidental local names
-            tgt_ = site.targets[0] if isinstance(site, ast.Assign) else (site.value.func if isinstance(site, ast.Expr) else site)  # type: ignore[union-attr]
+            tgt_ = (tgt0_ or site.targets[0]) if isinstance(site, ast.Assign) else (site.value.func if isinstance(site, ast.Expr) else site)  # type: ignore[union-attr]
             roots_ = [x for x in ast.walk(tgt_) if (isinstance(x, ast.Name) and x.id.isupper()) or (isinstance(x, ast.Attribute) and "cache" in x.attr.lower())]
             cache_name = unparse(roots_[0], 60) if roots_ else unparse(tgt_, 40)
             if isinstance(tgt_, ast.Subscript) and isinstance(tgt_.value, ast.Name) and not roots_:
